@@ -50,6 +50,7 @@ type c17Daemon struct {
 	strat     map[string]string
 	capacity  int
 	destroyed map[uint64]bool
+	mix       map[string]map[uint64]uint64 // direct FIB next hops at names lying between RIB routes (prefixes under /m)
 	log       []string
 }
 
@@ -368,7 +369,48 @@ func (d *c17Daemon) step(id string, r *rand.Rand) bool {
 	switch {
 	case kind < 40: // ---- well-formed, authorised commands
 		requester := []*c17Face{d.app, d.app2}[r.Intn(2)]
-		switch r.Intn(8) {
+		switch r.Intn(9) {
+		case 7: // both modules on one branch: a direct FIB next hop at a name that lies between two RIB routes
+			if d.mix == nil {
+				d.mix = map[string]map[uint64]uint64{}
+			}
+			base := fmt.Sprintf("/m/k%d", len(d.mix))
+			mid := base + "/mid"
+			reg := func(ns string) bool {
+				n, _ := enc.NameFromStr(ns)
+				d.log = append(d.log, fmt.Sprintf("%s: face %d rib/register %s", id, requester.id, ns))
+				cp := c17Params(&mgmt.ControlArgs{Name: n})
+				resp := d.command(requester, "/localhost/nfd", "rib", "register", &cp, 15*time.Second)
+				if resp == nil || resp.StatusCode != 200 {
+					d.fail("C17:valid-command-not-200:rib/register", id, "well-formed rib/register was answered with "+respStr(resp), nil)
+					return false
+				}
+				if d.routes[ns] == nil {
+					d.routes[ns] = map[string]refRoute{}
+				}
+				d.routes[ns][fmt.Sprintf("%d/%d", requester.id, 0)] = refRoute{face: requester.id, origin: 0, cost: 0, flags: 1}
+				return true
+			}
+			if !reg(mid + "/leaf") {
+				return false
+			}
+			fid, cst := d.peer.id, uint64(1+r.Intn(9))
+			mn, _ := enc.NameFromStr(mid)
+			d.log = append(d.log, fmt.Sprintf("%s: fib/add-nexthop %s face=%d cost=%d (between two RIB routes)", id, mid, fid, cst))
+			cpf := c17Params(&mgmt.ControlArgs{Name: mn, FaceId: u64p(fid), Cost: u64p(cst)})
+			if resp := d.command(requester, "/localhost/nfd", "fib", "add-nexthop", &cpf, 15*time.Second); resp == nil || resp.StatusCode != 200 {
+				d.fail("C17:valid-command-not-200:fib/add-nexthop", id, "well-formed fib/add-nexthop was answered with "+respStr(resp), nil)
+				return false
+			}
+			d.mix[mid] = map[uint64]uint64{fid: cst}
+			if !d.checkTables(id, "a fib/add-nexthop between two RIB routes") {
+				return false
+			}
+			if !reg(base) {
+				return false
+			}
+			c.Count("fib_next_hops_between_rib_routes", 1)
+			c.Distinct("ok|mixed-modules")
 		case 0, 1: // rib/register
 			n := pick("/r")
 			a := &mgmt.ControlArgs{Name: n}
@@ -913,6 +955,20 @@ func (d *c17Daemon) checkTables(id, after string) bool {
 	if !sameStrMap(gotF, wantF) {
 		d.fail("C17:fib-effect-wrong", id, "after "+after+" the FIB differs from what the accepted fib commands describe", map[string]any{"fib": gotF, "expected": wantF})
 		return false
+	}
+	// direct next hops at names between RIB routes are nobody else's business
+	for n, m := range d.mix {
+		found := ""
+		for _, e := range table.FibStrategyTable.GetAllFIBEntries() {
+			if e.Name().String() == n {
+				hm, _ := copyHops(e.GetNextHops())
+				found = hopsStr(hm)
+			}
+		}
+		if found != hopsStr(m) {
+			d.fail("C17:fib-effect-wrong:next-hop-between-rib-routes", id, fmt.Sprintf("after %s the FIB entry %s holds %q; fib/add-nexthop put %s there and no command has touched that name since", after, n, found, hopsStr(m)), map[string]any{"rib": d.refRibStr()})
+			return false
+		}
 	}
 	// FIB entries produced by the RIB are the flattening of the accepted registrations
 	// (child-inherit / capture semantics as in C06's reference)
